@@ -265,6 +265,9 @@ def _run(chk, wd, proved):
                      ['dispatch', 5, [['room', 20], ['room', env.BIG]]],
                      ['spawn', 1, 102], ['running', 1]],
         'cold': [],
+        # listener 0 RUNNING+READY, listener 1 respawned: it has announced READY but is still STARTING
+        'starting-ready': [['spawn', 0, 101], ['running', 0], ['feed', 0, b'READY\n'],
+                           ['spawn', 1, 102], ['feed', 1, b'READY\n']],
     }
     depth = 2 if quick else 3
     vidc = [30]
@@ -300,7 +303,8 @@ def _run(chk, wd, proved):
                 ops.append(['writable', i, rng.choice(W + [['room', 25]])])
             elif r < 0.78:
                 ops.append(['spawn', i, rng.randrange(300, 400)])
-                ops.append(['running', i])
+                if rng.random() < 0.75:      # else READY is announced while still STARTING
+                    ops.append(['running', i])
                 if rng.random() < 0.7:
                     ops.append(['feed', i, b'READY\n'])
             elif r < 0.84:
@@ -386,7 +390,7 @@ def _run(chk, wd, proved):
                    '<= %d bytes, else every single cut + byte-wise + random cuts (%d fragmentation runs compared '
                    'implementation-against-itself, byte-wise/whole/one random per stream compared with the model in Coq); '
                    'E: dispatch attempt after every fragment; S: every sequence of %d operations over %d operation kinds '
-                   'from 3 start configurations of two listeners + %d random histories of 4-13 operations; '
+                   'from 4 start configurations of two listeners + %d random histories of 4-13 operations; '
                    'distinct = distinct (observed state of all listeners, effects) pairs after an operation'
                    % (len(streams), len(TOKENS), len(CORE), exh_upto, frag_runs, depth, len(base_ops), nrand))
     cov['samples'] = [meta[0], meta[len(meta) // 2], meta[-1]]
